@@ -232,6 +232,22 @@ def _unique_id(tree):
         raise PinError("default of randomize is no longer a bool literal")
     out += f"/-- `randomize: bool = …` -/\ndef numericRandomizeDefault : Bool := {'true' if rd.value else 'false'}\n"
     out += _strs("numericInit", _body_strings(init), "UniqueNumericIdGenerator.__init__ body, in order")
+    a = init.args
+    params = [x.arg for x in a.posonlyargs + a.args] + (["*" + a.vararg.arg] if a.vararg else [])
+    params += [f"{k.arg}={ast.unparse(d) if d is not None else ''}" for k, d in zip(a.kwonlyargs, a.kw_defaults)]
+    params += ["**" + a.kwarg.arg] if a.kwarg else []
+    out += _strs("numericInitParams", params, "UniqueNumericIdGenerator.__init__ parameters (what a continuation file may pass)")
+    red = find_func(tree, "__reduce__", cls="UniqueNumericIdGenerator")
+    dicts = [n for n in ast.walk(red) if isinstance(n, ast.Dict)]
+    if len(dicts) != 1:
+        raise PinError("UniqueNumericIdGenerator.__reduce__: expected exactly one dict literal")
+    out += _strs("numericReduceState",
+                 [f"{ast.unparse(k)}: {ast.unparse(v)}" for k, v in zip(dicts[0].keys, dicts[0].values)],
+                 "what __reduce__ persists (key: expression), in order")
+    out += _strs("numericReduce", _body_strings(red), "UniqueNumericIdGenerator.__reduce__ body")
+    alpha_cls = find_class(tree, "AlphaUniquifier")
+    out += _strs("alphaOwnMethods", [n.name for n in alpha_cls.body if isinstance(n, ast.FunctionDef)],
+                 "methods AlphaUniquifier defines itself (it has no __reduce__ of its own)")
     conv = find_func(tree, "_convert", cls="UniqueNumericIdGenerator")
     ifs = [s for s in conv.body if isinstance(s, ast.If)]
     if len(ifs) != 2:
@@ -308,4 +324,18 @@ def _builtins(tree):
     init = find_func(funcs, "__init__")
     regs = [s for s in _body_strings(init) if "unique" in s]
     out += _strs("registrations", regs, "how the builtins are registered")
+    return out
+
+
+@group("PluginContinuation", "snowfakery/plugins.py", ["C13"])
+def _plugin_continuation(tree):
+    """How a PluginResult held by a just_once row travels through a continuation file."""
+    pr = find_class(tree, "PluginResult")
+    out = ""
+    out += _strs("reduceBody", _body_strings(find_func(pr, "__reduce__")), "PluginResult.__reduce__ body")
+    fc = find_func(pr, "_from_continuation")
+    out += _strs("fromContinuation", [",".join(a.arg for a in fc.args.args)] + _decorators(fc) + _body_strings(fc),
+                 "PluginResult._from_continuation: parameters, decorators, body")
+    out += _strs("initSubclass", _body_strings(find_func(pr, "__init_subclass__")), "PluginResult.__init_subclass__ body")
+    out += _strs("register", _body_strings(find_func(tree, "_register_for_continuation")), "_register_for_continuation body")
     return out
